@@ -44,7 +44,8 @@ fn set<T: Clone + Send + Sync + 'static>(label: &str, v: T) -> (String, Mutator<
 pub fn string_alphabet(pos: Pos) -> Vec<String> {
     let s = |x: &str| x.to_owned();
     match pos {
-        Pos::Header | Pos::Meta => vec![s("a b"), s("a  b"), s("a,b"), s("a;b=\"c\""), s("%41"), s("+"), "h".repeat(255)],
+        // (the last three: texts that mean something to the adapter's own layers when they stand in *another* header)
+        Pos::Header | Pos::Meta => vec![s("a b"), s("a  b"), s("a,b"), s("a;b=\"c\""), s("%41"), s("+"), "h".repeat(255), s("aws-chunked"), s("STREAMING-AWS4-HMAC-SHA256-PAYLOAD"), s("multipart/form-data; boundary=x")],
         Pos::Query => vec![s(""), s(" a "), s("a\t"), s("a b"), s("a+b"), s("a%b"), s("a&b=c"), s("a/b"), s("a?b"), s("a#b"), s("é"), s("😀"), s(".."), "q".repeat(1024)],
         Pos::Label => vec![s(" a "), s("a b"), s("a+b"), s("a%b"), s("a&b=c"), s("a/b"), s("a?b"), s("a#b"), s("é"), s("😀"), s("a/../b"), "k".repeat(1024)],
         // (an empty payload is indistinguishable from an absent one on the wire, so "" is not a payload value)
